@@ -70,7 +70,7 @@ FE(b) == FrontEnd(b.target, b.attr, b.macro, b.feature)
 \* ---- acceptance cases: every single option token, well- and ill-formed, on every target
 AllToks == UNION { WF[k] : k \in DOMAIN WF } \cup
            { Eq("no_deps", "false"), Eq("export", "false"), Eq("mockall", "true"), Eq("debug", "true"), Bare("debug"),
-             Eq("unimock", "maybe"), Bare("mock_api"), Bare("?Sized"), Bare("bogus"), Bare("delegate_by"),
+             Eq("unimock", "maybe"), Bare("mock_api"), Bare("?Sized"), Bare("?no_deps"), Bare("?export"), Eq("?unimock", "false"), Bare("bogus"), Bare("delegate_by"),
              Eq("delegate_by", "Borrow"), Eq("delegate_by", "Custom"), Eq("delegate_by", "type") }
 TableKey(t) == IF t.k \in {"?Send", "?Sized"} THEN t.k ELSE t.k
 WellFormed(t) == ParseOpt(t).err = ""
